@@ -904,6 +904,18 @@ impl C29 {
                     }
                     fp.add(0x400);
                 }
+                5 => {
+                    // a fully initialised value sitting where a later load reserves space (the program
+                    // used its buffer, then the file is loaded again)
+                    let k = *arg as usize % files.len();
+                    let reserved: Vec<u16> = files[k].obj.image.iter().filter(|(_, v)| v.is_none()).map(|(a, _)| *a).collect();
+                    if !reserved.is_empty() {
+                        let a = reserved[(*arg as usize / 7) % reserved.len()];
+                        sim.mem[a].set((*arg >> 16) as u16);
+                        out.bump("fired.initialised-word-under-reserved");
+                    }
+                    fp.add(0x500);
+                }
                 1 => {
                     sim.pc = 0x3000 + (*arg as u16 & 0xFF);
                     let _ = guarded(|| sim.run_with_limit(*arg as u64 % 40));
@@ -955,7 +967,7 @@ impl Check for C29 {
                 0..=2 => (0u8, r.below(nf as u64) as u32),
                 3 => (1u8, r.below(4000) as u32),
                 4 if nf >= 2 => (3u8, r.below(1000) as u32),
-                5 => (4u8, (r.u16() as u32) << 16 | r.below(5000) as u32),
+                5 => (if r.bool() { 4u8 } else { 5u8 }, (r.u16() as u32) << 16 | r.below(5000) as u32),
                 _ => (2u8, (r.u16() as u32) << 16 | r.u16() as u32),
             });
         }
